@@ -7,7 +7,7 @@ import subprocess
 
 import replay
 
-DIR = '/verif/replay_cfg'
+DIR = os.path.join(os.path.dirname(os.path.dirname(os.path.abspath(__file__))), 'replay_cfg')
 
 
 def build_cfg(features):
